@@ -89,6 +89,10 @@ class Ctx:
                 rc, out, err, dt = sh([sys.executable, os.path.join(VERIF, 'translate', f'gen_{g}.py'), REPO, COQ], timeout=120)
                 self.obligation(f'translate:{g}', rc == 0, (out + err))
                 ok &= rc == 0
+                partial = [l for l in (out + err).splitlines() if l.startswith('PARTIAL ')]
+                if partial:
+                    self._partial_tables = partial
+                    self.notes += [f'{l} (Coq files that use the missing definitions will not build)' for l in partial]
             # the other translators are run too, so that every generated file exists and is current (files are rewritten
             # only when their content changes); their outcome is an obligation of the checks that name them
             for fn in sorted(glob.glob(os.path.join(VERIF, 'translate', 'gen_*.py'))):
@@ -101,7 +105,7 @@ class Ctx:
             make_makefile()
             for t in targets:
                 rc, out, err, dt = sh(['make', '-f', 'Makefile.verif', '-j', str(NPROC), t], cwd=COQ, timeout=COQ_TIMEOUT)
-                self.obligation(f'coqc:{t}', rc == 0, (out + err))
+                self.obligation(f'coqc:{t}', rc == 0, (out + err) + ('' if rc == 0 else ' '.join(getattr(self, '_partial_tables', []))))
                 self.stats[f'build_s:{t}'] = round(dt, 1)
                 ok &= rc == 0
         return ok
